@@ -219,9 +219,9 @@ end
 
 /-- parse a complete token list as one expression.  The fuel is an artefact of the port (the Go parser
     has none); `Verif.Proofs.PrattFuel` shows that more fuel never changes a result, and the round trip
-    theorem that `3 * length + 3` suffices for every printed expression. -/
+    theorem that `4 * length + 4` suffices for every printed expression. -/
 def parseAll (ts : List Tok) : Option Expr :=
-  match parseExpr (3 * ts.length + 3) 0 ts with
+  match parseExpr (4 * ts.length + 4) 0 ts with
   | some (e, []) => some e
   | _ => none
 
